@@ -39,7 +39,7 @@ func FQDN(domain string) string {
 // domains are simply converted to local-case using strings.ToLower, but the
 // error is also returned.
 func ForLookup(domain string) (string, error) {
-	uDomain, err := idna.ToUnicode(domain)
+	uDomain, err := idna.ToUnicode(lowerASCII(domain))
 	if err != nil {
 		return strings.ToLower(domain), err
 	}
@@ -50,6 +50,19 @@ func ForLookup(domain string) (string, error) {
 	uDomain = strings.ToLower(uDomain)
 	uDomain = strings.TrimSuffix(uDomain, ".")
 	return uDomain, nil
+}
+
+// lowerASCII converts ASCII letters to lower case and leaves all other bytes
+// intact. A-labels are compared case-insensitively (RFC 5890 Section
+// 2.3.2.1), but idna.ToUnicode decodes only labels with the lower-case "xn--"
+// prefix.
+func lowerASCII(s string) string {
+	return strings.Map(func(r rune) rune {
+		if r >= 'A' && r <= 'Z' {
+			return r + ('a' - 'A')
+		}
+		return r
+	}, s)
 }
 
 // Equal reports whether domain1 and domain2 are equivalent as defined by
